@@ -200,6 +200,38 @@ def memo_key_defect(o: Outcome) -> Optional[Tuple[str, str]]:
             return ("memoised result is not keyed by all the inputs it depends on",
                     f"{g.name}[{key!r}] = {val!r} depends on {missing}, which the key does not contain: a later call "
                     f"with another such input would replay this entry")
+        # numeric inputs (amounts, plain numbers, exponents): every symbolic input the stored value mentions must be
+        # determined by the key
+        def num_atoms(v, acc, depth=0):
+            if depth > 6:
+                return
+            if isinstance(v, Num):
+                for a_ in st.norm(v.rf).atoms():
+                    if a_[0] in ("a", "k", "ki", "ta", "um", "parsed", "sym", "n"):
+                        acc.add(a_)
+            elif isinstance(v, QtyV):
+                if v.amount is not None:
+                    num_atoms(v.amount, acc, depth + 1)
+            elif isinstance(v, RateV):
+                num_atoms(v.ta, acc, depth + 1)
+                num_atoms(v.um, acc, depth + 1)
+            elif isinstance(v, (TupleV, ListV)) and getattr(v, "items", None) is not None:
+                for x in v.items:
+                    num_atoms(x, acc, depth + 1)
+        vat, kat, pat = set(), set(), set()
+        num_atoms(val, vat)
+        num_atoms(key, kat)
+        for a in list(o.args) + list(o.kwargs.values()):
+            num_atoms(a, pat)
+        # a quantity / rate in the key stands for all of its components
+        for x in (key.items if isinstance(key, TupleV) else [key]):
+            if isinstance(x, (QtyV, RateV)):
+                num_atoms(x, kat)
+        missing_n = sorted((vat & pat) - kat, key=repr)
+        if missing_n:
+            return ("memoised result is not keyed by all the inputs it depends on",
+                    f"{g.name}[{key!r}] = {val!r} depends on the numeric input(s) {missing_n}, which the key does not "
+                    f"contain: a later call with another value would replay this entry")
     return None
 
 
